@@ -7,6 +7,21 @@ HERE = os.path.dirname(os.path.dirname(os.path.abspath(__file__)))
 ALL = ["C%02d" % i for i in range(1, 21)]
 
 CLAIMED = {
+    "C03": dict(
+        category="model_checking",
+        text=("Schedule.tla generates SCHEDULE inputs (blocks of abstract keywords with their prerequisites; TLC checks "
+              "well-formedness exhaustively in small bounds and produces inputs by simulation); Trace_Schedule.tla states "
+              "causality over observations.  The real Schedule is built from each whole input, from every prefix cut at a "
+              "report-step boundary and from prefixes continued with different tails; every snapshot is observed through a "
+              "member-wise digest of the library's own serialisation (addresses canonicalised, wells and groups one by "
+              "one) and TLC validates that the observation of step j is the same in every run sharing blocks 1..j+1, and "
+              "that every prefix of an accepted input is accepted.  Shipped decks are cut the same way."),
+        design_ref="DESIGN.md section 5, C03",
+        note=("Trusted: TLC; the serialisation of ScheduleState as the observation (state that is not serialised is not "
+              "observed); the deck renderer.  For keywords outside the alphabet the oracle is agreement between runs of the "
+              "same code."),
+        technique="TLA+ input generator + causality relation checked by TLC over traces of the real Schedule (trace validation)",
+    ),
     "C10": dict(
         category="model_checking",
         text=("SummaryFile.tla (over EclFileFormat): the legacy reader's single-value offset arithmetic is transcribed and "
